@@ -10,6 +10,7 @@ import (
 	"net/http"
 	"net/url"
 	"sort"
+	"strings"
 	"sync"
 	"time"
 
@@ -85,23 +86,25 @@ func observeErr(e ev, err error) {
 
 // world is a stack under test together with what the harness needs to drive and observe it.
 type world struct {
-	mu        sync.Mutex
-	cat       *Catalog
-	top       ociregistry.Interface
-	snapOf    ociregistry.Interface // registry whose state the snap events project (nil: none)
-	snapAll   []ociregistry.Interface
-	prefix    string // repository name prefix underneath a sub() view
-	close     func()
-	writers   map[string]ociregistry.BlobWriter
-	ids       map[string]string
-	out       *json.Encoder
-	nEvents   int
-	rec       *recorder // backend call log, if the stack has one
-	quiesce   func()
-	opNo      int64
-	setOp     func(int64)
-	direct    bool   // the current op bypasses the stack (pre-population)
-	serverURL string // outermost HTTP server of the stack ("" if none or single POST disabled)
+	mu      sync.Mutex
+	cat     *Catalog
+	top     ociregistry.Interface
+	snapOf  ociregistry.Interface // registry whose state the snap events project (nil: none)
+	snapAll []ociregistry.Interface
+	prefix  string // repository name prefix underneath a sub() view
+	close   func()
+	writers map[string]ociregistry.BlobWriter
+	ids     map[string]string
+	out     *json.Encoder
+	nEvents int
+	rec     *recorder // backend call log, if the stack has one
+	quiesce func()
+	// resetConns drops pooled connections (after a transport-level failure)
+	resetConns func()
+	opNo       int64
+	setOp      func(int64)
+	direct     bool   // the current op bypasses the stack (pre-population)
+	serverURL  string // outermost HTTP server of the stack ("" if none or single POST disabled)
 	// noFreshIDs: resuming a session the stack has not issued an id for is skipped
 	noFreshIDs bool
 }
@@ -113,6 +116,11 @@ func (w *world) emit(e ev) {
 	}
 	if w.quiesce != nil {
 		w.quiesce()
+	}
+	if w.resetConns != nil {
+		if msg, _ := e["msg"].(string); strings.Contains(msg, "cannot do HTTP request") {
+			w.resetConns()
+		}
 	}
 	if w.rec != nil && e["op"] != "snap" && e["op"] != "reset" && !w.direct {
 		e["backend"] = w.rec.take(w.opNo)
@@ -193,13 +201,24 @@ func (w *world) setWriter(key, u, id string, bw ociregistry.BlobWriter) {
 		w.writers[key] = bw
 	}
 	w.ids[key] = id
+	if i := strings.Index(key, "|"); i >= 0 {
+		w.ids["*|"+key[i+1:]] = id
+	}
 }
 
 func (w *world) idOf(key string) (string, bool) {
 	w.mu.Lock()
 	defer w.mu.Unlock()
-	id, ok := w.ids[key]
-	return id, ok
+	if id, ok := w.ids[key]; ok {
+		return id, true
+	}
+	// a session name not yet used in this repository: hand over the id the name has elsewhere (to the
+	// registry it is just an id it has not seen in this repository)
+	if i := strings.Index(key, "|"); i >= 0 {
+		id, ok := w.ids["*|"+key[i+1:]]
+		return id, ok
+	}
+	return "", false
 }
 
 // exec executes one op against the top of the stack and returns the event describing it.
